@@ -285,33 +285,51 @@ Theorem C17_filesystems_exact : forall fs, forallb wf_fs fs = true ->
 Proof. exact read_fstypes_exact. Qed.
 Print Assumptions C17_filesystems_exact.
 
-(* disk_partitions(all) end to end, for every printed /proc/filesystems and every mounts table: device 'none' shown
-   as '', and without all=True exactly the entries with a device and a disk-backed type; with all=True every entry *)
-Theorem C17_partitions_filter : forall all fs es,
+(* disk_partitions(all) end to end, for every printed /proc/filesystems, every mounts table and every answer [root] of the
+   root-device lookup: device 'none' shown as '', '/dev/root' and 'rootfs' shown as the looked-up root device or, when the
+   lookup fails, as they are; without all=True exactly the entries with a device and a disk-backed type; with all=True all *)
+Theorem C17_partitions_filter : forall all root fs es,
   forallb wf_fs fs = true -> forallb wf_ment es = true -> forallb dev_ok es = true ->
-  forallb short_line es = true -> forallb plain_dev es = true ->
-  disk_partitions all (k_filesystems fs) (k_mounts es) = Val (spec_partitions all fs es).
+  forallb short_line es = true ->
+  disk_partitions all root (k_filesystems fs) (k_mounts es) = Val (spec_partitions all fs root es).
 Proof. exact disk_partitions_exact. Qed.
 Print Assumptions C17_partitions_filter.
 
+(* the row of an entry is a function of that entry and of the lookup result alone: it does not depend on the entries
+   before or after it (e.g. on which spelling of the root device came first) ... *)
+Theorem C17_partitions_entry_local : forall all fs fstypes root pre e post,
+  spec_partitions all fs root (pre ++ e :: post)
+    = spec_partitions all fs root pre ++ spec_partitions all fs root [e] ++ spec_partitions all fs root post
+  /\ partitions_loop all fstypes root (pre ++ e :: post)
+    = Val (filter_some (map (part_entry all fstypes root) pre) ++ filter_some [part_entry all fstypes root e]
+           ++ filter_some (map (part_entry all fstypes root) post)).
+Proof. exact (fun all fs fstypes root pre e post => conj (spec_partitions_local all fs root pre e post) (partitions_loop_local all fstypes root pre e post)). Qed.
+Print Assumptions C17_partitions_entry_local.
+
+(* ... nor on the order of the table: reordering the entries only reorders the rows *)
+Theorem C17_partitions_order : forall all fstypes root es es', Permutation.Permutation es es' ->
+  Permutation.Permutation (filter_some (map (part_entry all fstypes root) es)) (filter_some (map (part_entry all fstypes root) es')).
+Proof. exact partitions_order. Qed.
+Print Assumptions C17_partitions_order.
+
 (* with all=True /proc/filesystems is not consulted at all *)
-Theorem C17_partitions_all : forall fsb es,
-  forallb wf_ment es = true -> forallb dev_ok es = true -> forallb short_line es = true -> forallb plain_dev es = true ->
-  disk_partitions true fsb (k_mounts es) = Val (spec_partitions true [] es).
+Theorem C17_partitions_all : forall root fsb es,
+  forallb wf_ment es = true -> forallb dev_ok es = true -> forallb short_line es = true ->
+  disk_partitions true root fsb (k_mounts es) = Val (spec_partitions true [] root es).
 Proof. exact disk_partitions_all. Qed.
 Print Assumptions C17_partitions_all.
 
 (* known finding (not repaired): an entry whose fields reach beyond the first 4095 bytes of its line comes back cut *)
 Theorem C17_mounts_longline_refuted : exists es,
   forallb wf_ment es = true /\ forallb dev_ok es = true /\ forallb plain_dev es = true /\ forallb utf8_ok es = true /\
-  exists rows, disk_partitions true [] (k_mounts es) = Val rows /\ map m_type rows = [[]].
+  exists rows, disk_partitions true None [] (k_mounts es) = Val rows /\ map m_type rows = [[]].
 Proof. exact mounts_longline_refuted. Qed.
 Print Assumptions C17_mounts_longline_refuted.
 
 (* known finding: '#' in a device name is printed by the kernel as \043 and reported like that *)
 Theorem C17_mounts_hash_refuted : exists es,
   forallb wf_ment es = true /\ forallb plain_dev es = true /\ forallb short_line es = true /\ forallb utf8_ok es = true /\
-  exists rows, disk_partitions true [] (k_mounts es) = Val rows /\ map m_dev rows = [bs "\043dev"] /\ map m_dev es = [bs "#dev"].
+  exists rows, disk_partitions true None [] (k_mounts es) = Val rows /\ map m_dev rows = [bs "\043dev"] /\ map m_dev es = [bs "#dev"].
 Proof. exact mounts_hash_refuted. Qed.
 Print Assumptions C17_mounts_hash_refuted.
 
@@ -319,7 +337,7 @@ Print Assumptions C17_mounts_hash_refuted.
 Theorem C17_mounts_emptydev_refuted : exists es,
   forallb wf_ment es = true /\ forallb plain_dev es = true /\ forallb short_line es = true /\ forallb utf8_ok es = true /\
   map m_dev es = [[]] /\
-  disk_partitions true [] (k_mounts es)
+  disk_partitions true None [] (k_mounts es)
     = Val [ {| m_dev := bs "/mnt"; m_dir := bs "tmpfs"; m_type := bs "rw"; m_opts := bs "0" |} ].
 Proof. exact mounts_emptydev_refuted. Qed.
 Print Assumptions C17_mounts_emptydev_refuted.
@@ -332,17 +350,17 @@ Proof. exact filesystems_nodev_name_observation. Qed.
 Print Assumptions C17_filesystems_nodev_name_observation.
 
 (* fixed defect (0d52d5b): the legacy code needed UTF-8 type and options ... *)
-Theorem C17_partitions_legacy_all : forall fsb es,
-  forallb wf_ment es = true -> forallb dev_ok es = true -> forallb short_line es = true -> forallb plain_dev es = true ->
+Theorem C17_partitions_legacy_all : forall root fsb es,
+  forallb wf_ment es = true -> forallb dev_ok es = true -> forallb short_line es = true ->
   forallb utf8_ok es = true ->
-  disk_partitions_legacy true fsb (k_mounts es) = Val (spec_partitions true [] es).
+  disk_partitions_legacy true root fsb (k_mounts es) = Val (spec_partitions true [] root es).
 Proof. exact disk_partitions_legacy_all. Qed.
 Print Assumptions C17_partitions_legacy_all.
 
 (* ... one non-UTF-8 byte made the whole call raise *)
 Theorem C17_mounts_legacy_nonutf8_refuted : exists es,
   forallb wf_ment es = true /\ forallb dev_ok es = true /\ forallb plain_dev es = true /\ forallb short_line es = true /\
-  disk_partitions_legacy true [] (k_mounts es) = Exc UnicodeError.
+  disk_partitions_legacy true None [] (k_mounts es) = Exc UnicodeError.
 Proof. exact mounts_legacy_nonutf8_refuted. Qed.
 Print Assumptions C17_mounts_legacy_nonutf8_refuted.
 
